@@ -510,11 +510,38 @@ package nfa
 //@   ensures nxt == skipS(old(hi) + 1)
 //@   ensures off(c.builder.states) == 0
 
-// the recursive 4-byte splitting is not under contract (variable shifts and masks): ASSUMED to cover exactly [lo, hi]
-//@ trusted func (*Compiler).splitUTF84ByteRange
+// the recursive 4-byte splitting: a range is split at the 64 / 4096 / 262144 block boundaries until, for every number
+// of trailing continuation bytes, lo and hi agree above them or cover full blocks there - then it is one box. The two
+// halves handed to the recursive calls are adjacent and start at lo / end at hi (ghost over the actual arguments);
+// the leaf chain is a box starting at lo and ending at hi. Variable masks 1<<(6*i)-1 are encoded by case tables.
+//@ func (*Compiler).splitUTF84ByteRange
+//@   props C15
+//@   opt safety=off
+//@   opt frame=off
+//@   opt check_requires=splitUTF84ByteRange
+//@   opt timeout_factor=4
 //@   requires bOK(c)
 //@   requires 0x10000 <= lo && lo <= hi && hi <= 0x10FFFF
 //@   modifies c.builder.states, c.builder.states[*], c.builder.byteClassSet.*
+//@   ghost var nxt = lo
+//@   after call splitUTF84ByteRange#1: lastarg1 == nxt
+//@   after call splitUTF84ByteRange#1: ghost nxt = lastarg2 + 1
+//@   after call splitUTF84ByteRange#2: lastarg1 == nxt
+//@   after call splitUTF84ByteRange#2: ghost nxt = lastarg2 + 1
+//@   after call splitUTF84ByteRange#3: lastarg1 == nxt
+//@   after call splitUTF84ByteRange#3: ghost nxt = lastarg2 + 1
+//@   after call splitUTF84ByteRange#4: lastarg1 == nxt
+//@   after call splitUTF84ByteRange#4: ghost nxt = lastarg2 + 1
+//@   after call AddByteRange#4: ch4(c.builder, lastcall, endState)
+//@   after call AddByteRange#4: box4ok(c.builder.states[lastcall].lo, c.builder.states[lastcall].hi, c.builder.states[c.builder.states[lastcall].next].lo, c.builder.states[c.builder.states[lastcall].next].hi, c.builder.states[c.builder.states[c.builder.states[lastcall].next].next].lo, c.builder.states[c.builder.states[c.builder.states[lastcall].next].next].hi, c.builder.states[c.builder.states[c.builder.states[c.builder.states[lastcall].next].next].next].lo, c.builder.states[c.builder.states[c.builder.states[c.builder.states[lastcall].next].next].next].hi)
+//@   after call AddByteRange#4: dec4(c.builder.states[lastcall].lo, c.builder.states[c.builder.states[lastcall].next].lo, c.builder.states[c.builder.states[c.builder.states[lastcall].next].next].lo, c.builder.states[c.builder.states[c.builder.states[c.builder.states[lastcall].next].next].next].lo) == nxt
+//@   after call AddByteRange#4: ghost nxt = dec4(c.builder.states[lastcall].hi, c.builder.states[c.builder.states[lastcall].next].hi, c.builder.states[c.builder.states[c.builder.states[lastcall].next].next].hi, c.builder.states[c.builder.states[c.builder.states[c.builder.states[lastcall].next].next].next].hi) + 1
+//@   loop 1: invariant 1 <= i && i <= 4 && nxt == lo && off(c.builder.states) == 0
+//@   loop 1: invariant i >= 2 ==> (lo / 64 == hi / 64 || (lo % 64 == 0 && hi % 64 == 63))
+//@   loop 1: invariant i >= 3 ==> (lo / 4096 == hi / 4096 || (lo % 4096 == 0 && hi % 4096 == 4095))
+//@   loop 1: invariant i >= 4 ==> (lo / 262144 == hi / 262144 || (lo % 262144 == 0 && hi % 262144 == 262143))
+//@   loop 1: decreases 4 - i
+//@   ensures nxt == hi + 1
 //@   ensures off(c.builder.states) == 0
 
 //@ func (*Compiler).compileUTF84ByteRange
